@@ -1,6 +1,7 @@
 package main
 
 import (
+	"go/constant"
 	"bytes"
 	"encoding/json"
 	"fmt"
@@ -170,12 +171,29 @@ func (c *Ctx) unprovenSites() ([]partialSite, error) {
 				gen[fname] = true
 				continue
 			}
+			info := pk.TypesInfo
+			// expression text with named integer constants shown by value, so that introducing a
+			// name for a literal does not change the obligation key
+			render := func(e ast.Expr) string {
+				txt := types.ExprString(e)
+				ast.Inspect(e, func(n ast.Node) bool {
+					id, ok := n.(*ast.Ident)
+					if !ok || info == nil {
+						return true
+					}
+					if k, ok := info.Uses[id].(*types.Const); ok && k.Val().Kind() == constant.Int {
+						txt = regexp.MustCompile(`\b`+regexp.QuoteMeta(id.Name)+`\b`).ReplaceAllString(txt, k.Val().ExactString())
+					}
+					return true
+				})
+				return txt
+			}
 			ast.Inspect(f, func(n ast.Node) bool {
 				switch x := n.(type) {
 				case *ast.IndexExpr:
-					exprAt[posKey(x.Lbrack)] = types.ExprString(x)
+					exprAt[posKey(x.Lbrack)] = render(x)
 				case *ast.SliceExpr:
-					exprAt[posKey(x.Lbrack)] = types.ExprString(x)
+					exprAt[posKey(x.Lbrack)] = render(x)
 				}
 				return true
 			})
